@@ -136,13 +136,17 @@ NearUlp(x, y, prec, ulps) == \/ (x.tag = "fin" /\ y.tag = "fin" /\
 \* x * y ~ 1 (reciprocal), within `ulps` units
 RecipOf(x, y, prec, ulps) == x.tag = "fin" /\ y.tag = "fin" /\
     DyLe(DyAbs(DySub(DyMul(FDy(x), FDy(y)), DyOfInt(1))), Dy(BigOfInt(ulps), 1 - prec))
-LeUlp(x, y, prec, ulps) == DyLe(FDy(x), DyAdd(FDy(y), DyShift(DyMulInt(DyAbs(FDy(y)), ulps), 1 - prec)))
+\* (with a few units of the smallest subnormal as absolute slack)
+LeUlp(x, y, prec, ulps) == DyLe(FDy(x), DyAdd(DyAdd(FDy(y), DyShift(DyMulInt(DyAbs(FDy(y)), ulps), 1 - prec)),
+                                             Dy(BigOfInt(1), IF prec = 53 THEN -1070 ELSE -145)))
 Positive(x) == x.tag = "fin" /\ DySign(FDy(x)) > 0
 \* G = exp(mean of ln x): the rounding error of ln x is relative to |ln x|, so the relative error of G
 \* grows with |log2 G| (data far from 1); allowance in ulps, from a crude bound on |log2 g|
 Log2Bound(g) == LET t == g.e + 15 * Len(g.m) IN (IF t < 0 THEN -t ELSE t) + 15
 MeanIneqUlps(g) == IF g.tag = "fin" /\ g.m # <<>> THEN 8 + 4 * Log2Bound(g) ELSE 8
 
+\* results in the subnormal range carry an absolute rounding error of half the smallest subnormal per operation
+SubnormalSlack(e) == Dy(BigOfInt(1), IF PrecE(e) = 53 THEN -1071 ELSE -146)
 GeoFailed(e) ==
     IF e.out.tag = "panic" THEN {"C05.no_panic"}
     ELSE IF ~e.aux_present THEN {}
@@ -156,8 +160,9 @@ GeoFailed(e) ==
          \cup {c \in {"C05.geo_mean"} : ~NearUlp(e.stats.mean, e.auxv.exp_tmean, PrecE(e), 4)}
          \cup {c \in {"C05.geo_sem"} : e.stats.sem.tag = "fin" /\ e.auxv.tsem.tag = "fin" /\
                  ~DyLe(DyAbs(DySub(FDy(e.stats.sem), DyMul(FDy(e.stats.mean), FDy(e.auxv.tsem)))),
-                       DyShift(DyMulInt(DyAbs(FDy(e.stats.sem)), 8), 1 - PrecE(e)))}
+                       DyAdd(DyShift(DyMulInt(DyAbs(FDy(e.stats.sem)), 8), 1 - PrecE(e)), SubnormalSlack(e)))}
          \cup {c \in {"C05.mean_inequality"} :
+                 e.auxv.hmean.tag = "fin" /\ e.auxv.gmean.tag = "fin" /\ e.auxv.amean.tag = "fin" /\     \* (1/x overflows for subnormal x)
                  ~(LeUlp(e.auxv.hmean, e.auxv.gmean, PrecE(e), MeanIneqUlps(e.auxv.gmean)) /\ LeUlp(e.auxv.gmean, e.auxv.amean, PrecE(e), MeanIneqUlps(e.auxv.gmean)))}
 
 HarmFailed(e) ==
@@ -176,8 +181,12 @@ HarmFailed(e) ==
          \cup {c \in {"C05.harm_mean"} : ~RecipOf(e.stats.mean, e.auxv.tmean, PrecE(e), 4)}
          \cup {c \in {"C05.harm_sem"} : e.stats.sem.tag = "fin" /\ e.auxv.tsem.tag = "fin" /\
                  ~DyLe(DyAbs(DySub(FDy(e.stats.sem), DyMul(DySq(FDy(e.stats.mean)), FDy(e.auxv.tsem)))),
-                       DyShift(DyMulInt(DyAbs(FDy(e.stats.sem)), 8), 1 - PrecE(e)))}
+                       DyAdd(DyShift(DyMulInt(DyAbs(FDy(e.stats.sem)), 8), 1 - PrecE(e)), SubnormalSlack(e)))}
+         \* H^2 se(1/x) well inside the float range: the reported standard error is a finite number
+         \cup {c \in {"C05.harm_sem"} : e.stats.sem.tag # "fin" /\ e.auxv.tsem.tag = "fin" /\ e.stats.mean.tag = "fin" /\
+                 DyLt(DyMul(DySq(FDy(e.stats.mean)), FDy(e.auxv.tsem)), Dy(BigOfInt(1), IF PrecE(e) = 53 THEN 1000 ELSE 120))}
          \cup {c \in {"C05.mean_inequality"} :
+                 e.auxv.hmean.tag = "fin" /\ e.auxv.gmean.tag = "fin" /\ e.auxv.amean.tag = "fin" /\     \* (1/x overflows for subnormal x)
                  ~(LeUlp(e.auxv.hmean, e.auxv.gmean, PrecE(e), MeanIneqUlps(e.auxv.gmean)) /\ LeUlp(e.auxv.gmean, e.auxv.amean, PrecE(e), MeanIneqUlps(e.auxv.gmean)))}
 
 \* ---------------------------------------------------------------- dispatch
@@ -210,7 +219,8 @@ Clauses1(e) ==
                                     ELSE {"C04.domain"})
       [] e.fl = "geo"      -> {"C05.no_panic"} \cup (IF e.aux_present
                                  THEN {"C05.geo_outcome", "C05.geo_mean", "C05.geo_sem", "C05.mean_inequality"}
-                                      \cup (IF OkIv(e) THEN {"C05.geo_bounds", "C05.kind." \o e.conf.kind} ELSE {}) ELSE {})
+                                      \cup (IF OkIv(e) THEN {"C05.geo_bounds", "C05.kind." \o e.conf.kind} ELSE {})
+                                      \cup (IF "subnormal" \in DOMAIN e /\ OkIv(e) THEN {"C05.subnormal_data_accepted"} ELSE {}) ELSE {})
       [] e.fl = "harm"     -> {"C05.no_panic"} \cup (IF e.aux_present
                                  THEN {"C05.harm_outcome", "C05.harm_mean", "C05.harm_sem", "C05.mean_inequality"}
                                       \cup (IF OkIv(e) THEN {"C05.harm_bounds", "C05.kind." \o e.conf.kind} ELSE {"C05.harm_straddle_rejected"}) ELSE {})
